@@ -10,6 +10,8 @@ import GPVerif.Bridge.Constraints
 import GPVerif.Model.ParamStore
 import GPVerif.Gen.Priors
 import GPVerif.Bridge.PriorNorm
+import GPVerif.Bridge.InitDispatch
+import GPVerif.Bridge.MatrixPriors
 import Mathlib.Probability.Distributions.Gaussian.Real
 import Mathlib.Tactic.NormNum
 import Mathlib.Tactic.Push
@@ -348,11 +350,16 @@ theorem prior_normalised :
     have : σ ^ 2 ≤ 0 := Real.toNNReal_eq_zero.mp h0
     exact absurd this (not_le.mpr (pow_pos hσ 2)))
 
-/-- **prior_density_partial** — what remains unproved about prior densities: the matrix-valued families
-(`MultivariateNormalPrior`, `LKJPrior`, `LKJCholeskyFactorPrior`, `LKJCovariancePrior`) are compared with reference
-densities and (LKJ, n = 2) integrated numerically only; `HorseshoePrior` is documented as an unnormalised
-approximation (`pdf(x) ∼ (lb(x) + ub(x))/2`), so there is nothing to normalise.  Proved about the generated horseshoe
-expression: it is an even function of `x`. -/
+/-- **prior_density_partial** — what remains unproved about prior densities after wave 3.  Now proved (section
+"matrix-valued priors" below): `MultivariateNormalPrior.log_prob` = log of the documented Gaussian density for every
+size / factor / point (`mvn_prior_parts_correct`, `mvn_prior_assembly_eq_closed_form`, `mvn_prior_logprob_closed_form`),
+and the LKJ-Cholesky density as a function of the factor's diagonal with the documented exponents
+(`lkj_chol_density_of_diag`, `lkj_chol_unnormZ_eq`, `lkj_corr_density_eq_chol`).  Still numerical only: the
+normalising constant of the LKJ family (torch's `lgamma / mvlgamma` expression; `n = 2` integrated numerically),
+`LKJPrior` on correlation matrices for `n ≥ 3` (known finding: it returns the Cholesky density without the Jacobian),
+`LKJCovariancePrior` (reference density); `HorseshoePrior` is documented as an unnormalised approximation
+(`pdf(x) ∼ (lb(x) + ub(x))/2`), so there is nothing to normalise.  Proved about the generated horseshoe expression: it
+is an even function of `x`. -/
 theorem prior_density_partial (s x : ℝ) :
     Gen.Priors.horseshoeLogProb s (-x) = Gen.Priors.horseshoeLogProb s x := by
   simp only [Gen.Priors.horseshoeLogProb, div_neg, neg_mul_neg]
@@ -374,6 +381,228 @@ theorem smoothed_box_plateau {a b σ x : ℝ} (hσ : 0 < σ) (hab : a < b) (hx :
   simp only [sub_zero, mul_zero, neg_zero, zero_div, Real.exp_zero]
   field_simp
 
+
+/-! ### matrix-valued priors (Task B): what is provable about `MultivariateNormalPrior` and `LKJCholeskyFactorPrior` -/
+
+section matrixPriors
+open Matrix MVN MatrixPriors MatrixPriorsBridge
+
+/-- **mvn_prior_parts_correct** — the two quantities `MultivariateNormalPrior.log_prob` computes from its buffer
+`_unbroadcasted_scale_tril = L` (model `mvnTrilParts?`, executed at ℚ by `drivers/C17mat.lean`; any field): the squared
+norm `‖L⁻¹(v − μ)‖²` is the Mahalanobis form of `Σ = L Lᵀ`, the second component is the diagonal of `L`, and for a
+lower-triangular `L` the C10 pieces `MVN.logProbParts?` of `N(μ, L Lᵀ)` (certified inverse / certified `L D Lᵀ`) are
+the same quadratic form and `det Σ = (Π L_ii)²`. -/
+theorem mvn_prior_parts_correct {n : Nat} {α : Type} [Field α] [DecidableEq α]
+    (L : DMat n n α) (mu v : DMat n 1 α) (M : α) (d : Fin n → α)
+    (h : mvnTrilParts? L mu v = some (M, d)) :
+    M = ((v.toMatrix - mu.toMatrix)ᵀ * (L.toMatrix * L.toMatrixᵀ)⁻¹ * (v.toMatrix - mu.toMatrix)) 0 0 ∧
+      (d = fun i => L.toMatrix i i) ∧
+      (L.toMatrix.IsLowerTriangular → ∀ q dt, logProbParts? (L.mul L.transpose) mu v = some (q, dt) →
+        q = M ∧ dt = (∏ i, d i) ^ 2) := by
+  obtain ⟨hM, hd, _⟩ := mvnTrilParts_correct L mu v M d h
+  refine ⟨hM, hd, fun hL q dt hq => ?_⟩
+  obtain ⟨h1, h2⟩ := logProbParts_correct _ mu v q dt hq
+  simp only [DMat.toMatrix_mul, DMat.toMatrix_transpose] at h1 h2
+  refine ⟨by rw [h1, hM], ?_⟩
+  rw [h2, det_tril_gram _ hL, hd]
+
+/-- **mvn_prior_assembly_eq_closed_form** — torch's assembly `−½(k log 2π + M) − Σ log L_ii` is C10's closed form
+`−½(M + log det Σ + k log 2π)` with `det Σ = (Π L_ii)²` (positive diagonal). -/
+theorem mvn_prior_assembly_eq_closed_form {n : Nat} (M c : ℝ) (d : Fin n → ℝ) (hd : ∀ i, 0 < d i) :
+    mvnPriorAssemble M (∑ i, Real.log (d i)) c = logProbAssemble M (Real.log ((∏ i, d i) ^ 2)) c := by
+  have : Real.log ((∏ i, d i) ^ 2) = 2 * ∑ i, Real.log (d i) := by
+    rw [Real.log_pow, Real.log_prod (fun i _ => (hd i).ne')]; norm_num
+  rw [this]
+  unfold mvnPriorAssemble logProbAssemble
+  ring
+
+/-- **mvn_prior_logprob_closed_form** — for every size, every lower-triangular `L` with positive diagonal and every
+residual `r = v − μ`: the value `MultivariateNormalPrior.log_prob` assembles from `‖L⁻¹ r‖²` and `Σ log L_ii` is the
+logarithm of the documented density `det(2πΣ)^{-1/2} exp(−½ rᵀ Σ⁻¹ r)` with `Σ = L Lᵀ`. -/
+theorem mvn_prior_logprob_closed_form {n : Nat} (L : Matrix (Fin n) (Fin n) ℝ) (r : Matrix (Fin n) (Fin 1) ℝ)
+    (hL : L.IsLowerTriangular) (hpos : ∀ i, 0 < L i i) :
+    mvnPriorAssemble (((L⁻¹ * r)ᵀ * (L⁻¹ * r)) 0 0) (∑ i, Real.log (L i i)) (n * Real.log (2 * π)) =
+      Real.log (Real.exp (-(1 / 2) * (rᵀ * (L * Lᵀ)⁻¹ * r) 0 0) / Real.sqrt ((2 * π) ^ n * (L * Lᵀ).det)) := by
+  rw [mvn_prior_assembly_eq_closed_form _ _ _ hpos, det_tril_gram _ hL, quad_tril]
+  have hprod : 0 < (∏ i, L i i) ^ 2 := pow_pos (Finset.prod_pos fun i _ => hpos i) 2
+  have h2pi : (0 : ℝ) < 2 * π := by positivity
+  have hpow : (0 : ℝ) < (2 * π) ^ n := pow_pos h2pi n
+  have hall : (0 : ℝ) < (2 * π) ^ n * (∏ i, L i i) ^ 2 := mul_pos hpow hprod
+  rw [Real.log_div (Real.exp_pos _).ne' (Real.sqrt_pos.mpr hall).ne', Real.log_exp, Real.log_sqrt hall.le,
+    Real.log_mul hpow.ne' hprod.ne', Real.log_pow, Real.log_pow]
+  unfold logProbAssemble
+  ring
+
+/-- **lkj_chol_density_of_diag** — the modelled unnormalised LKJ-Cholesky log density (`Σ_{i=2}^{n} e_i log L_ii` with the
+exponent table `e_i = n − i + 2(η − 1)`, the table the driver returns exactly) is the logarithm of the documented
+`Π_{i=2}^{n} L_ii ^ (n − i + 2(η − 1))`, for every `n`, real `η` and positive diagonal. -/
+theorem lkj_chol_density_of_diag (n : Nat) (η : ℝ) (d : Nat → ℝ) (hd : ∀ k, 0 < d k) :
+    Real.exp (lkjCholLogUnnorm n η (fun k => Real.log (d k))) =
+      ∏ k ∈ Finset.range (n - 1), d (k + 1) ^ (lkjCholExponent n η (k + 2)) := by
+  unfold lkjCholLogUnnorm
+  rw [list_range_sum, Real.exp_sum]
+  refine Finset.prod_congr rfl fun k _ => ?_
+  rw [Real.rpow_def_of_pos (hd _), mul_comm]
+
+/-- when `2(η − 1)` is an integer `t` the density itself is the rational expression `lkjCholUnnormZ` the driver evaluates in ℚ -/
+theorem lkj_chol_unnormZ_eq (n : Nat) (t : ℤ) (η : ℝ) (ht : (t : ℝ) = 2 * (η - 1)) (d : Nat → ℝ)
+    (hd : ∀ k, 0 < d k) :
+    lkjCholUnnormZ n t d = Real.exp (lkjCholLogUnnorm n η (fun k => Real.log (d k))) := by
+  rw [lkj_chol_density_of_diag n η d hd]
+  unfold lkjCholUnnormZ
+  rw [list_range_prod]
+  refine Finset.prod_congr rfl fun k _ => ?_
+  rw [← Real.rpow_intCast]
+  congr 1
+  unfold lkjCholExponent
+  push_cast
+  rw [ht]
+
+/-- **lkj_corr_density_eq_chol** — why these exponents: for the Cholesky factor `L` (lower-triangular, positive diagonal,
+`L₁₁ = 1`) of a correlation matrix `Σ = L Lᵀ` of any size, the documented LKJ density `|Σ|^(η−1)` times the Jacobian
+`Π L_ii^(n−i)` of `L ↦ L Lᵀ` is exactly the modelled Cholesky-diagonal density. -/
+theorem lkj_corr_density_eq_chol (m : Nat) (η : ℝ) (L : Matrix (Fin (m + 1)) (Fin (m + 1)) ℝ)
+    (hL : L.IsLowerTriangular) (hpos : ∀ i, 0 < L i i) (h00 : L 0 0 = 1) :
+    (L * Lᵀ).det ^ (η - 1) * ∏ i : Fin (m + 1), L i i ^ (((m + 1 - (i.val + 1) : ℕ) : ℝ)) =
+      Real.exp (lkjCholLogUnnorm (m + 1) η (fun k => Real.log (diagN L k))) := by
+  have hdpos : ∀ k, 0 < diagN L k := by
+    intro k; unfold diagN; split
+    · exact hpos _
+    · exact one_pos
+  rw [lkj_chol_density_of_diag (m + 1) η _ hdpos, det_tril_gram L hL]
+  have hP : 0 ≤ ∏ i, L i i := Finset.prod_nonneg fun i _ => (hpos i).le
+  rw [← Real.rpow_natCast, ← Real.rpow_mul hP, ← Real.finsetProd_rpow _ _ (fun i _ => (hpos i).le),
+    ← Finset.prod_mul_distrib]
+  have hterm : ∀ i : Fin (m + 1), L i i ^ (((2 : ℕ) : ℝ) * (η - 1)) * L i i ^ (((m + 1 - (i.val + 1) : ℕ) : ℝ)) =
+      diagN L i.val ^ (lkjCholExponent (m + 1) η (i.val + 1)) := by
+    intro i
+    rw [← Real.rpow_add (hpos i)]
+    have : diagN L i.val = L i i := by simp [diagN, i.isLt]
+    rw [this]
+    congr 1
+    unfold lkjCholExponent
+    push_cast
+    ring
+  rw [Finset.prod_congr rfl fun i _ => hterm i,
+    Fin.prod_univ_eq_prod_range (fun k => diagN L k ^ (lkjCholExponent (m + 1) η (k + 1))) (m + 1),
+    Finset.prod_range_succ']
+  have h0 : diagN L 0 = 1 := by simp [diagN, h00]
+  simp only [h0, Real.one_rpow, mul_one, Nat.add_sub_cancel]
+
+end matrixPriors
+
+/-! ### `Module.initialize(**kwargs)` with several (dotted) names -/
+
+/-- **gen_initialize_eq_fold** — the program regenerated from the body of `Module.initialize` (loop over
+`kwargs.items()`, dotted-name dispatch through `_get_module_and_name`, `nn.ModuleList` index branch, immediate or
+deferred child calls, leaf chain), run on ANY module tree, store and kwargs list (any number of names, any nesting
+depth, plain and dotted names mixed, repeated targets), is the left fold of the specified single assignments:
+no pair is dropped, reordered or applied twice. -/
+theorem gen_initialize_eq_fold (leaf : Nat → Option Target) (child : Nat → Node) (s : Store ℝ)
+    (kvs : List (Path × ℝ)) :
+    Init.exec Gen.InitDispatch.initializeProg (.mod leaf child) s kvs = initFold (.mod leaf child) s kvs :=
+  InitDispatchBridge.execFuel_gen _ _ s kvs (Nat.lt_succ_self _) (Or.inl ⟨leaf, child, rfl⟩)
+
+/-- the same for a call that reaches a missing sub-module / a `ModuleList` with a non-empty kwargs list (both raise) -/
+theorem gen_initialize_child_call (n : Node) (s : Store ℝ) (kv : Path × ℝ) (rest : List (Path × ℝ)) :
+    Init.exec Gen.InitDispatch.initializeProg n s (kv :: rest) = initFold n s (kv :: rest) :=
+  InitDispatchBridge.execFuel_gen _ _ s _ (Nat.lt_succ_self _) (Or.inr (by simp))
+
+/-- the Tensor and the float branch of the regenerated leaf chain test the bound BEFORE they store: they are the
+store model's `initRaw` (a rejected value leaves the parameter untouched) -/
+theorem gen_initialize_check_before_store (s : Store ℝ) (p : Nat) (r : ℝ) :
+    Init.runLeafSteps (initTensorRaises true true) Gen.InitDispatch.tensorSteps s p r = s.initRaw p r ∧
+    Init.runLeafSteps (initFloatRaises true true) Gen.InitDispatch.floatSteps s p r = s.initRaw p r := by
+  constructor
+  · simp only [Gen.InitDispatch.tensorSteps, InitDispatchBridge.leafSteps_check_store, Store.initRaw]
+  · simp only [Gen.InitDispatch.floatSteps, InitDispatchBridge.leafSteps_check_store, Store.initRaw,
+      initFloatRaises, initTensorRaises, Bool.and_true, Bool.true_and]
+
+/-- one `initialize` call with the kwargs `A ++ B` = `initialize(**A)` then (unless it raised) `initialize(**B)` -/
+theorem initialize_append (n : Node) (s : Store ℝ) (k₁ k₂ : List (Path × ℝ)) :
+    initFold n s (k₁ ++ k₂) =
+      if (initFold n s k₁).2 then initFold n s k₁ else initFold n (initFold n s k₁).1 k₂ :=
+  InitDispatchBridge.initFold_append n k₂ k₁ s
+
+/-- after a multi-name `initialize` (whatever it was given, raised or not) every parameter reads inside its bounds -/
+theorem initialize_reads_in_bounds (n : Node) (s : Store ℝ) (hs : ∀ q, Valid (s.kind q))
+    (kvs : List (Path × ℝ)) (p : Nat) :
+    Interior ((initFold n s kvs).1.kind p) ((initFold n s kvs).1.read p) := by
+  obtain ⟨ops, h⟩ := InitDispatchBridge.initFold_eq_run n kvs s
+  rw [h]
+  exact reads_in_bounds_always ops s hs p
+
+/-- `initialize(raw_p = r)` never raises for a real `r`, reads `transform r`, leaves the other parameters alone -/
+theorem initRaw_reads (s : Store ℝ) (p : Nat) (hk : Valid (s.kind p)) (r : ℝ) :
+    (s.apply (.initRaw p r)).2 = false ∧ (s.apply (.initRaw p r)).1.read p = (s.kind p).transform r ∧
+      ∀ q, q ≠ p → (s.apply (.initRaw p r)).1.read q = s.read q := by
+  have hraw := checkRaw_always _ hk r
+  simp only [Store.apply, Store.initRaw, initTensorRaises, hraw, decide_true, Bool.not_true, Bool.and_false,
+    Bool.false_eq_true, ↓reduceIte]
+  refine ⟨trivial, ?_, ?_⟩
+  · simp only [Store.read, Store.setRaw, ↓reduceIte]
+  · intro q hq
+    simp only [Store.read, Store.setRaw, hq, ↓reduceIte]
+
+/-- what a pair of `kwargs` is allowed to be for the read-back statement -/
+def Assignable (n : Node) (s : Store ℝ) (kv : Path × ℝ) : Prop :=
+  (∃ p, resolve n kv.1 = some (.pub p) ∧ Interior (s.kind p) kv.2) ∨ (∃ p, resolve n kv.1 = some (.raw p))
+
+/-- **initialize_multi_reads_back** — ONE `initialize(**kwargs)` call whose names denote parameters (public names with
+interior values, raw names with any real value; dotted or plain, several below the same child, repeated targets
+allowed) does not raise, keeps every constraint, and afterwards every parameter reads the value of the LAST pair that
+denotes it — or its old value when no pair does. -/
+theorem initialize_multi_reads_back (n : Node) (kvs : List (Path × ℝ)) :
+    ∀ (s : Store ℝ), (∀ q, Valid (s.kind q)) → (∀ kv ∈ kvs, Assignable n s kv) →
+      (initFold n s kvs).2 = false ∧ (∀ q, (initFold n s kvs).1.kind q = s.kind q) ∧
+        ∀ q, (initFold n s kvs).1.read q = (lastRead n s.kind kvs q).getD (s.read q) := by
+  induction kvs with
+  | nil => intro s _ _; simp [initFold, lastRead]
+  | cons kv rest ih =>
+    intro s hs hkv
+    have h0 := hkv kv (List.mem_cons_self)
+    -- the first assignment: does not raise, keeps the kinds, reads
+    have key : (assign1 n s kv).2 = false ∧ (∀ q, (assign1 n s kv).1.kind q = s.kind q) ∧
+        ∀ q, (assign1 n s kv).1.read q =
+          (match resolve n kv.1 with
+            | some (.pub p) => if p = q then some kv.2 else none
+            | some (.raw p) => if p = q then some ((s.kind q).transform kv.2) else none
+            | none => none).getD (s.read q) := by
+      rcases h0 with ⟨p, hp, hint⟩ | ⟨p, hp⟩
+      · have := setter_reads_back s p (hs p) hint
+        simp only [assign1, hp, Store.assignTarget]
+        refine ⟨this.1, fun q => InitDispatchBridge.apply_set_kind s p _ q, fun q => ?_⟩
+        by_cases hq : p = q
+        · subst hq; simp [this.2.1]
+        · simp [hq, this.2.2 q (Ne.symm hq)]
+      · have := initRaw_reads s p (hs p) kv.2
+        simp only [assign1, hp, Store.assignTarget]
+        refine ⟨this.1, fun q => InitDispatchBridge.apply_initRaw_kind s p _ q, fun q => ?_⟩
+        by_cases hq : p = q
+        · subst hq; simp [this.2.1]
+        · simp [hq, this.2.2 q (Ne.symm hq)]
+    obtain ⟨k1, k2, k3⟩ := key
+    have hs' : ∀ q, Valid ((assign1 n s kv).1.kind q) := fun q => by rw [k2]; exact hs q
+    have hkv' : ∀ kv' ∈ rest, Assignable n (assign1 n s kv).1 kv' := by
+      intro kv' hmem
+      rcases hkv kv' (List.mem_cons_of_mem _ hmem) with ⟨p, hp, hint⟩ | ⟨p, hp⟩
+      · exact Or.inl ⟨p, hp, by rw [k2]; exact hint⟩
+      · exact Or.inr ⟨p, hp⟩
+    obtain ⟨i1, i2, i3⟩ := ih (assign1 n s kv).1 hs' hkv'
+    simp only [initFold, k1, Bool.false_eq_true, ↓reduceIte]
+    refine ⟨i1, fun q => by rw [i2, k2], fun q => ?_⟩
+    rw [i3 q]
+    have hkind : (assign1 n s kv).1.kind = s.kind := funext k2
+    rw [hkind, k3 q]
+    simp only [lastRead]
+    cases lastRead n s.kind rest q with
+    | some v => simp
+    | none =>
+      simp only [Option.getD_none]
+      cases resolve n kv.1 with
+      | none => rfl
+      | some t => cases t <;> rfl
+
 /-! ### the hypotheses are satisfiable -/
 
 example : Valid (.interval (1 / 10 : ℝ) 2) := valid_interval.mpr (by norm_num)
@@ -382,5 +611,34 @@ example : Outside (.interval (1 / 10 : ℝ) 2) 3 := Or.inr (by norm_num)
 example : Outside (.greaterThan (1 / 10000 : ℝ)) 0 := by simp only [Outside]; norm_num
 example : ∃ s : Store ℝ, ∀ q, Valid (s.kind q) :=
   ⟨⟨fun _ => .positive, fun _ => 0⟩, fun _ => by simp [Valid, Kind.InitRejects]⟩
+
+/-- a two-level tree: root with child 0 = `ScaleKernel`-like module (public name 0 → parameter 0) whose child 0 has
+public name 0 → parameter 1; the kwargs `{"0.0": 2, "0.0.0": 3}` (two dotted names below the same child) satisfy
+the hypotheses of `initialize_multi_reads_back` -/
+example : ∃ (n : Node) (s : Store ℝ) (kvs : List (Path × ℝ)), 2 ≤ kvs.length ∧ (∀ q, Valid (s.kind q)) ∧
+    ∀ kv ∈ kvs, Assignable n s kv := by
+  let base : Node := .mod (fun x => if x = 0 then some (.pub 1) else none) (fun _ => .none)
+  let scale : Node := .mod (fun x => if x = 0 then some (.pub 0) else none) (fun x => if x = 0 then base else .none)
+  let root : Node := .mod (fun _ => none) (fun x => if x = 0 then scale else .none)
+  refine ⟨root, ⟨fun _ => .positive, fun _ => 0⟩, [([0, 0], 2), ([0, 0, 0], 3)], by simp,
+    fun _ => by simp [Valid, Kind.InitRejects], ?_⟩
+  intro kv hkv
+  simp only [List.mem_cons, List.not_mem_nil, or_false] at hkv
+  rcases hkv with rfl | rfl
+  · exact Or.inl ⟨0, by simp [root, scale, resolve, Node.leafOf], by simp [Interior]⟩
+  · exact Or.inl ⟨1, by simp [root, scale, base, resolve, Node.leafOf], by simp [Interior]⟩
+
+/-- the hypotheses of `mvn_prior_parts_correct` hold for a concrete rational factor (the instance the driver runs) -/
+example : ∃ M d, MatrixPriors.mvnTrilParts? (DMat.ofMatrix !![(1 : ℚ), 0; 1 / 2, 2]) (DMat.ofMatrix !![(0 : ℚ); 0])
+    (DMat.ofMatrix !![(1 : ℚ); 1]) = some (M, d) ∧ M = 17 / 16 := by
+  refine ⟨17 / 16, fun i => if i = 0 then 1 else 2, ?_, rfl⟩
+  decide +kernel
+example : (MVN.logProbParts? ((DMat.ofMatrix !![(1 : ℚ), 0; 1 / 2, 2]).mul (DMat.ofMatrix !![(1 : ℚ), 0; 1 / 2, 2]).transpose)
+    (DMat.ofMatrix !![(0 : ℚ); 0]) (DMat.ofMatrix !![(1 : ℚ); 1])).isSome = true := by decide +kernel
+example : (1 : Matrix (Fin 3) (Fin 3) ℝ).IsLowerTriangular ∧ (∀ i, 0 < (1 : Matrix (Fin 3) (Fin 3) ℝ) i i) ∧
+    (1 : Matrix (Fin 3) (Fin 3) ℝ) 0 0 = 1 := by
+  refine ⟨fun i j hij => Matrix.one_apply_ne (by rintro rfl; exact (lt_irrefl _) hij), fun i => by simp, by simp⟩
+example : MatrixPriors.lkjCholExponents 4 (3 / 2 : ℚ) = [3, 2, 1] := by decide +kernel
+example : MatrixPriors.lkjCholUnnormZ 3 1 (fun k => if k = 1 then (1 / 2 : ℚ) else 1 / 4) = 1 / 16 := by decide +kernel
 
 end C17
